@@ -175,7 +175,7 @@ type corpusItem struct {
 
 func TestCheck(t *testing.T) {
 	r := vp.New("C13", "exploration",
-		"advertisements: product of {previous link} x {entries: NoEntries, dag-json link, dag-cbor link} x {0..2 addresses} x {context ID 0/1/64} x {metadata 0/1/1024} x {signature empty/non-empty} x {IsRm} x {extended providers absent / present with 0,1,2 providers} x {override} x {zero-length lists and byte strings empty / nil}; what is decoded must encode to the bytes it was decoded from, and a loaded value stored again must give the same CID; entry chunks: 0..3 multihashes of mixed hash functions (sha2-256, sha2-512, identity, truncated sha2-256, a two-byte code (blake2b-256), a length of two varint bytes) x {next link}; both codecs; store twice through Linkproto; load with typed and with generic prototype. Decoder: for each corpus block every single-byte substitution, every truncation, CBOR header tokens / JSON structural tokens at every offset, all byte strings of length <=2, for both decoders and both codecs and for the generic-node unwrap path. Non-trivial: values with at least one optional part or list element; decoder inputs other than the corpus itself.",
+		"advertisements: product of {previous link} x {entries: NoEntries, dag-json link, dag-cbor link} x {0..2 addresses} x {context ID 0/1/64} x {metadata 0/1/1024} x {signature empty/non-empty} x {IsRm} x {extended providers absent / present with 0,1,2 providers} x {override} x {zero-length lists and byte strings empty / nil}; what is decoded must encode to the bytes it was decoded from, and a loaded value stored again must give the same CID; entry chunks: 0..3 multihashes of mixed hash functions (sha2-256, sha2-512, identity, truncated sha2-256, a two-byte code (blake2b-256), a length of two varint bytes) x {next link}; both codecs; store twice through Linkproto; load with typed and with generic prototype. Decoder: for each corpus block every single-byte substitution, every truncation, CBOR header tokens / JSON structural tokens at every offset, all byte strings of length <=2, for both decoders and both codecs and for the generic-node unwrap path; after every block that the unwrap path rejects a small valid block is decoded and compared (a rejection leaves nothing behind). Non-trivial: values with at least one optional part or list element; decoder inputs other than the corpus itself.",
 		"equality is semantic: nil and empty are the same for non-optional lists and byte strings; optional parts must keep absent-vs-present",
 		"decoder inputs are within one token of a valid block or at most 2 bytes long",
 	)
@@ -726,5 +726,73 @@ func decodeArbitrary(r *vp.Recorder, key, mutKind, kind string, codec uint64, da
 		if why != "" {
 			r.Violation(fmt.Sprintf("%s:unwrapped-but-not-reencodable:%s:codec=%x", kind, mutKind, codec), key, why, nil)
 		}
+	default:
+		// the block was rejected. A rejection leaves nothing behind: the next
+		// conversion of a perfectly good block of the same kind gives that
+		// block's value (no previous link, no extended providers, its own
+		// addresses / entries and nothing else)
+		if why := canary(kind, codec); why != "" {
+			r.Violation(fmt.Sprintf("%s:good-block-decodes-differently-after-a-rejected-one:%s:codec=%x", kind, mutKind, codec), key, why, nil)
+		}
 	}
+}
+
+// canary decodes a small valid block of the given kind (typed path and generic
+// path) and compares with the value it was built from.
+func canary(kind string, codec uint64) string {
+	c := cidFor(codec)
+	if kind == "ad" {
+		ad := schema.Advertisement{Provider: fixture.Key("ed25519", 0).ID.String(), Addresses: []string{"/ip4/9.9.9.9/tcp/9"}, Entries: schema.NoEntries, ContextID: []byte("canary"), Metadata: []byte{1}, Signature: []byte{2}}
+		want := adCanon(&ad)
+		n, err := ad.ToNode()
+		if err != nil {
+			return ""
+		}
+		data, err := encode(n, codec)
+		if err != nil {
+			return ""
+		}
+		back, err := schema.BytesToAdvertisement(c, data)
+		if err != nil {
+			return "typed decode of a valid advertisement failed: " + err.Error()
+		}
+		if got := adCanon(&back); got != want {
+			return fmt.Sprintf("typed decode of a valid advertisement gives\n %s\nwant\n %s", got, want)
+		}
+		nb := basicnode.Prototype.Any.NewBuilder()
+		if codec == uint64(multicodec.DagJson) {
+			err = dagjson.Decode(nb, bytes.NewReader(data))
+		} else {
+			err = dagcbor.Decode(nb, bytes.NewReader(data))
+		}
+		if err != nil {
+			return ""
+		}
+		ga, err := schema.UnwrapAdvertisement(nb.Build())
+		if err != nil {
+			return "unwrapping a valid advertisement failed: " + err.Error()
+		}
+		if got := adCanon(ga); got != want {
+			return fmt.Sprintf("generic load of a valid advertisement gives\n %s\nwant\n %s", got, want)
+		}
+		return ""
+	}
+	ch := schema.EntryChunk{Entries: []multihash.Multihash{fixture.Mh("canary", multihash.SHA2_256, -1)}}
+	want := chunkCanon(&ch)
+	n, err := ch.ToNode()
+	if err != nil {
+		return ""
+	}
+	data, err := encode(n, codec)
+	if err != nil {
+		return ""
+	}
+	back, err := schema.BytesToEntryChunk(c, data)
+	if err != nil {
+		return "typed decode of a valid entry chunk failed: " + err.Error()
+	}
+	if got := chunkCanon(&back); got != want {
+		return fmt.Sprintf("typed decode of a valid entry chunk gives %s, want %s", got, want)
+	}
+	return ""
 }
